@@ -39,6 +39,15 @@ def family(tier):
         '3*n-n': sym.Sum((sym.Product((L(3), n)), X.neg(n))), '(n+1)*(n-1)': sym.Product((sym.Sum((n, L(1))), sym.Sum((n, X.neg(L(1)))))),
         'n*n-1': sym.Sum((sym.Product((n, n)), X.neg(L(1)))),
     }
+    # flat n-ary products / sums with several minus signs (sign bookkeeping of the simplifier)
+    k3 = X.V('k', X.INT_T)
+    base.update({
+        '(-n)*(-m)*(-k)': sym.Product((X.neg(n), X.neg(m), X.neg(k3))), 'n*m*k': sym.Product((n, m, k3)),
+        '(-1)*n*(-1)*2*(-1)': sym.Product((-1, n, -1, L(2), -1)), '(-1)*(-2)*(-3)': sym.Product((X.neg(L(1)), X.neg(L(2)), X.neg(L(3)))),
+        'n+(-2)*(-1)*(-1)': sym.Sum((n, sym.Product((X.neg(L(2)), X.neg(L(1)), X.neg(L(1)))))), '-6': X.neg(L(6)),
+        '(-n)*(-m)': sym.Product((X.neg(n), X.neg(m))), '(-n)*(-2)*(-3)*(-1)': sym.Product((X.neg(n), X.neg(L(2)), X.neg(L(3)), X.neg(L(1)))),
+        '6*n': sym.Product((L(6), n)), '-(n*m*k)': X.neg(sym.Product((n, m, k3))),
+    })
     if tier == 'thorough':
         k = X.V('k', X.INT_T)
         base.update({
